@@ -148,6 +148,15 @@ def rand_header(rng, version=None, fmt=None, nvlrs=None, extra_dims=0):
         h.extra_vlr_bytes = bytes(rng.randrange(256) for _ in range(rng.choice([1, 2, 9])))
     if version >= "1.3":
         h.start_of_waveform_data_packet_record = rng.choice([0, 1, 2 ** 64 - 1, rng.randrange(2 ** 64)])
+    if rng.random() < 0.5:
+        # stale statistics, as in a header taken from another file: the writer must reset them
+        h.point_count = rng.choice([1, 7, 1000])
+        h.maxs = np.array([rng.uniform(-1e5, 1e5) for _ in range(3)])
+        h.mins = np.array([rng.uniform(-1e5, 1e5) for _ in range(3)])
+        h.number_of_points_by_return = np.array([rng.randrange(5) for _ in range(15)], dtype=np.uint64)
+        if version == "1.4":
+            h.number_of_evlrs = rng.choice([1, 3])
+            h.start_of_first_evlr = rng.choice([375, 1234, 99999])
     k = rng.choice([0, 0, 1, 2, 5]) if nvlrs is None else nvlrs
     for _ in range(k):
         h.vlrs.append(rand_vlr(rng))
@@ -184,3 +193,36 @@ def write_las(las_or_header, points=None, evlrs=None):
         if evlrs:
             w.write_evlrs(evlrs)
     return bio.getvalue()
+
+
+def add_extra_dims(rng, h, k=None):
+    """adds k random extra dimensions (30 element types, scaled or not, opaque byte arrays) to header h"""
+    import laspy
+    base = ["u1", "i1", "u2", "i2", "u4", "i4", "u8", "i8", "f4", "f8"]
+    k = rng.choice([0, 0, 1, 2, 3]) if k is None else k
+    for j in range(k):
+        if rng.random() < 0.15:
+            t = f"{rng.choice([4, 5, 7, 8, 9, 15, 16, 17, 24, 31, 32, 255])}u1"
+            sc = None
+        else:
+            n = rng.choice([1, 1, 2, 3])
+            t = (str(n) if n > 1 else "") + rng.choice(base)
+            sc = n if rng.random() < 0.35 else None
+        name = f"e{j}_" + rand_ascii(rng, rng.choice([0, 1, 5, 20, 32 - 3 - len(str(j))]), [c for c in range(97, 123)])
+        name = name[:32]
+        kw = {}
+        if sc:
+            kw = dict(scales=np.array([rng.choice([0.5, 0.01, 2.0]) for _ in range(sc)]),
+                      offsets=np.array([rng.choice([0.0, 10.0, -3.5]) for _ in range(sc)]))
+        h.add_extra_dim(laspy.ExtraBytesParams(name, t, description=rand_ascii(rng, rng.choice([0, 3, 31, 32]), [c for c in range(65, 91)]), **kw))
+    return h
+
+
+def format_key(pf):
+    """semantic identity of a point format, independent of PointFormat.__eq__"""
+    return (pf.id, tuple((d.name, d.kind.name, d.num_bits, d.num_elements, None if d.scales is None else tuple(map(float, d.scales)),
+                          None if d.offsets is None else tuple(map(float, d.offsets))) for d in pf.extra_dimensions))
+
+
+def rec_bytes(rec):
+    return bytes(np.ascontiguousarray(rec.array).tobytes())
